@@ -18,7 +18,7 @@ use props::*;
 
 fn trees_for(rep: &mut Report, mode: Mode, tier: Tier, which: &[&str], scale: f64, prune: (bool, bool), all_entries: bool) {
     let vis = TextVisitor { mode, all_entries, short_all: tier.pick(9, 11) };
-    for plan in plans(tier, which, scale) {
+    for plan in plans(tier, which, scale, mode) {
         run_tree(rep, &plan, prune, &vis);
     }
 }
@@ -131,6 +131,7 @@ fn main() {
             x_all(&mut rep, Mode::C01, tier);
             pump_family(&mut rep, Mode::C01, tier);
             history::run(&mut rep, Mode::C01, tier);
+            history::reentrancy(&mut rep);
             deep_family(&mut rep, Mode::C01, tier);
             option_presets(&mut rep);
             rep.rule = "a state is an input prefix (node of the execution tree); every node is executed on the real parser through every entry point (13 text entry points on core nodes; parse_str/parse_slice/observed iterator on deviation nodes; parse_slice/parse_slice_with on byte nodes) and the verdict compared with R-pda (+ surrogate well-formedness, + core::str::from_utf8 for bytes); children only below viable prefixes, post-mortem horizon 2 below dead nodes; non-trivial = distinct inputs".into();
@@ -147,6 +148,7 @@ fn main() {
             x_all(&mut rep, Mode::C07, tier);
             pump_family(&mut rep, Mode::C07, tier);
             history::run(&mut rep, Mode::C07, tier);
+            history::reentrancy(&mut rep);
             deep_family(&mut rep, Mode::C07, tier);
             rep.rule = "every rejected node (including post-mortem nodes) of the trees: Unexpected(p,c) must carry the longest viable prefix length and the character there; InvalidUtf8 the offset of the first ill-formed sequence unless a syntax error lies strictly before it; surrogate errors the offending code units and a span inside the escape sequence(s) up to the detection point; all offsets character boundaries within the input; non-trivial = distinct rejected inputs".into();
             rep.assumptions.push("span of a surrogate error may extend to the point where the fault becomes detectable (DESIGN A.7.1)".into());
@@ -160,6 +162,7 @@ fn main() {
             duplicate_key_family(&mut rep, Mode::C02, tier);
             pump_family(&mut rep, Mode::C02, tier);
             history::run(&mut rep, Mode::C02, tier);
+            history::reentrancy(&mut rep);
             t_corpus(&mut rep, Mode::C02, Tier::Quick);
             rep.rule = "every accepted node of the trees and every member of the complete families (65 536 \\uXXXX in both hex cases, 1 048 576 surrogate pairs, 1 112 064 raw scalars, 128 backslash+ASCII) is parsed through parse_str, parse_slice and the observed iterator; the value, observed through the public accessors, must equal R-dec's abstract value; every key lookup on every object must equal a linear scan; non-trivial = distinct accepted inputs".into();
             rep.finish()
@@ -171,6 +174,7 @@ fn main() {
             duplicate_key_family(&mut rep, Mode::C05, tier);
             pump_family(&mut rep, Mode::C05, tier);
             history::run(&mut rep, Mode::C05, tier);
+            history::reentrancy(&mut rep);
             whitespace_family(&mut rep, Mode::C05);
             t_corpus(&mut rep, Mode::C05, Tier::Quick);
             rep.rule = "every accepted node: the returned code map must equal R-dec's pre-order list of (start, end, volume) exactly, through parse_str, parse_slice and the observed iterator; root volume = length, volumes >= 1, one entry per traversal fragment; non-trivial = distinct accepted inputs".into();
@@ -183,6 +187,7 @@ fn main() {
             x_all(&mut rep, Mode::C12, tier);
             pump_family(&mut rep, Mode::C12, tier);
             history::run(&mut rep, Mode::C12, tier);
+            history::reentrancy(&mut rep);
             option_presets(&mut rep);
             if !q {
                 u_all(&mut rep, Mode::C12, Tier::Quick, false);
@@ -198,6 +203,8 @@ fn main() {
             t_corpus(&mut rep, Mode::C03, tier);
             pump_family(&mut rep, Mode::C03, tier);
             history::run(&mut rep, Mode::C03, tier);
+            history::reentrancy(&mut rep);
+            history::source_hints(&mut rep);
             pump::run(&mut rep, tier);
             rep.rule = "totality: every node of the trees, every byte string of length <= 3 over all 256 values, every <=4-byte sequence family inside strings and every truncation / byte substitution of the corpus is parsed under all four option records inside catch_unwind with a watchdog and an iterator that aborts after 1000 polls past the end; stack: every nesting word of length <= 3 over the 4 container-entry forms, pumped to depth N, closed / unclosed / wrongly closed, parsed and traversed in a thread with a small fixed stack".into();
             rep.assumptions.push("dropping a deeply nested Value is recursive (observed; outside C03, which speaks of parsing and traversal): the pump leaks the value".into());
